@@ -23,6 +23,8 @@ TARGETS = ["IbicusModel.Props.C01"]
 GEN = ["Debiasers"]
 TARGETS += ["IbicusModel.Lemmas.GenDebWin"]  # tier A of the per-window transfer functions (CDFt, ECDFM, QDM, QM, SDM absolute): the audit imports it
 GEN += ["DebWin"]  # Gen.DebWin: dataflow programs extracted by translator/extract_debiasers.py
+TARGETS += ["IbicusModel.Props.Capstone3"]  # capstone 3: C01 stated on the denotation of the regenerated per-window pieces (Gen.Debiasers kernels, Gen.DebWin programs, Gen.IsimipStep6.step6 / apply_on_window); the audit imports it
+GEN += ["Loops", "GridLoops", "DebWin", "Debiasers", "IsimipStep6"]  # the groups capstone 3 (through Props.Capstone) composes (lean_phase regenerates every transitively imported group anyway)
 
 CORR_CONFIGS = ["LS-additive", "LS-multiplicative", "DC-additive", "DC-multiplicative", "QM-parametric-additive",
                 "QM-parametric-multiplicative", "QM-nonparametric-additive", "QM-nonparametric-no_detrending", "ECDFM",
